@@ -18,7 +18,7 @@ from . import vk
 ARCSEC = np.pi / 180.0 / 3600.0
 
 
-def slope_endpoints(cfg, layer):
+def slope_endpoints(cfg, layer, projection="small_angle"):
     """Return (P_plus, P_minus, coef, wfs_index) for every slope at one layer."""
     h = float(cfg["layer_altitudes"][layer])
     Pp, Pm, coef, widx = [], [], [], []
@@ -30,7 +30,9 @@ def slope_endpoints(cfg, layer):
         idx = np.argwhere(mask == 1).astype(np.float64)  # row-major
         centre = (idx + 0.5) * d - cfg["telescope_diameter"] / 2.0
         theta = np.asarray(cfg["gs_positions"][w], dtype=np.float64) * ARCSEC
-        p = s * centre + theta * h
+        # the footprint of a star at angle theta is displaced by h theta (small-angle form, what the library documents) or by
+        # h tan(theta) (exact); "geometrically projected" covers both, they differ by h theta^3 / 3
+        p = s * centre + (np.tan(theta) if projection == "tangent" else theta) * h
         dp = s * d
         lam = float(cfg["wfs_wavelengths"][w])
         for axis in (0, 1):
@@ -43,12 +45,12 @@ def slope_endpoints(cfg, layer):
     return (np.concatenate(Pp), np.concatenate(Pm), np.concatenate(coef), np.concatenate(widx))
 
 
-def reference_matrix(cfg, layers=None):
+def reference_matrix(cfg, layers=None, projection="small_angle"):
     n_layers = cfg["n_layers"]
     layers = range(n_layers) if layers is None else layers
     total = None
     for l in layers:
-        Pp, Pm, coef, _ = slope_endpoints(cfg, l)
+        Pp, Pm, coef, _ = slope_endpoints(cfg, l, projection)
         r0 = float(cfg["layer_r0s"][l])
         L0 = float(cfg["layer_L0s"][l])
 
